@@ -271,6 +271,7 @@ func (l *commitLog) AppendMessageSet(ms []byte) ([]int64, error) {
 }
 
 func (l *commitLog) append(segment *segment, ms []byte, entries []*entry) ([]int64, error) {
+	verifGate("append.after_layout")
 	var (
 		lastLeaderEpoch = l.leaderEpochCache.LastLeaderEpoch()
 		offsets         = make([]int64, len(entries))
@@ -291,6 +292,7 @@ func (l *commitLog) append(segment *segment, ms []byte, entries []*entry) ([]int
 		}
 		offsets[i] = entry.Offset
 	}
+	verifGate("append.before_segment_write")
 	if err := segment.WriteMessageSet(ms, entries); err != nil {
 		return nil, err
 	}
@@ -642,6 +644,7 @@ func (l *commitLog) Truncate(offset int64) error {
 	atomic.StorePointer((*unsafe.Pointer)(unsafe.Pointer(&l.vActiveSegment)),
 		unsafe.Pointer(activeSegment))
 	l.segments = segments
+	verifGate("truncate.before_clear_epochs")
 	return l.leaderEpochCache.ClearLatest(offset)
 }
 
@@ -792,6 +795,7 @@ func (l *commitLog) Clean() error {
 	l.mu.RLock()
 	oldSegments := l.segments
 	l.mu.RUnlock()
+	verifGate("clean.after_snapshot")
 	cleaned, epochCache, err := l.clean(oldSegments)
 	if err != nil {
 		return err
